@@ -18,7 +18,8 @@ CLAIMED = {
         text="TLC checks that the transcribed five-state recogniser agrees with the reference receiver RefRecv on every prefix of every stream up to a "
              "length bound and that decode(encode(m)) = m; every real SMTP session (all short streams, split reads, trailing command bytes, random "
              "long streams, payloads produced by the real client) is a record judged by TLC with the monitor DecVerdict. "
-             "Added since: round trip through the real client with bare CRs, sessions under a size limit, recognised commands after the terminator with predicted replies, a preamble that fails only under a read cap is a verdict. Long streams under read caps just below, at and around the size of the daemon's input buffer (1024) and its halves; short writes by the daemon.",
+             "Added since: round trip through the real client with bare CRs, sessions under a size limit, recognised commands after the terminator with predicted replies, a preamble that fails only under a read cap is a verdict. Long streams under read caps just below, at and around the size of the daemon's input buffer (1024) and its halves; short writes by the daemon."
+             " Added later: sessions with each call of the daemon around DATA failing (EMFILE, ENOMEM): once 354 has been said, everything up to CRLF.CRLF draws one reply.",
         note="alphabet {CR,LF,'.',x}; the QMAILQUEUE stand-in records what the daemon hands to the queue; lines '.' CR x are left unconstrained (DESIGN 6.3)",
         design="5 C05"),
     "C06": dict(
@@ -35,7 +36,7 @@ CLAIMED = {
              "inode pool of 2, crashes) with the monitor judging every step. On the real programs 1-3 qmail-queue processes run at once against the daemon under seeded random schedules at "
              "system-call granularity, the daemon is crashed before its mutating calls and restarted, injectors are killed before each call (stale entries), the clock is moved past 36 h and "
              "clean-up periods, a second qmail-send is started; TLC replays every directory event and evaluates the state table after each."
-             " Added later: injectors that stall before each of their calls, started by a program that had SIGALRM blocked (inherited signal mask), with their own 24-hour timer going off and the daemon's 36-hour collection passing over them before they are released.",
+             " Added later: injectors that stall before each of their calls, started by a program that had SIGALRM blocked (inherited signal mask), with their own 24-hour timer going off and the daemon's 36-hour collection passing over them before they are released; the clock set back while an injector is stalled.",
         note="directory operations synchronous; readdir as the kernel behaves; one process moves at a time (gate)",
         design="5 C02"),
     "C03": dict(
@@ -79,7 +80,8 @@ CLAIMED = {
         text="Remote.tla gives, per server script over reply classes, the set of results the statement allows (odd <400 replies may be read either way); RemoteModel.tla and FoldModel.tla "
              "check the transcriptions for every script / output. The real qmail-remote is run against a scripted server for every script (boundary codes 399/400/499/500/599, multi-line "
              "replies, disconnects, stalls, no listener), the real qmail-rspawn relays every stand-in result; all records are judged by TLC. "
-             "Added since: malformed reply lines as a reply class (never an acceptance), one failing or short call of the client per run (FaultVerdict), and the table of hosts that time out: Tcpto.tla / TcptoModel.tla / TcptoRec.tla bound by a function seam over every (table, call) of a bounded domain and by runs of the real qmail-remote under the virtual clock.",
+             "Added since: malformed reply lines as a reply class (never an acceptance), one failing or short call of the client per run (FaultVerdict), and the table of hosts that time out: Tcpto.tla / TcptoModel.tla / TcptoRec.tla bound by a function seam over every (table, call) of a bounded domain and by runs of the real qmail-remote under the virtual clock."
+             " Added later: clients of qmail-rspawn that close their output and die a moment later (the relay must wait for the exit status that belongs to this client).",
         note="0xx/1xx/6xx+ codes and per-line differing codes are not generated; the possible-duplicate flag is observed as text; a connection attempt 'times out' against a listener whose accept queue is full",
         design="5 C09"),
     "C10": dict(
@@ -88,7 +90,7 @@ CLAIMED = {
              "envelopes x edits with every branch action covered. The real daemon is played in parallel sandboxes (qmail-start plumbing), messages are injected by the real qmail-queue, "
              "local/remote lists and delivery commands are read back; ~400k recipient evaluations per quick run are judged by TLC. "
              "Added since: control files with empty lines and an unterminated last line, a name with every letter of the alphabet in both cases."
-             " Added later: HUP arriving while a scan of todo/ is open (gated run: two messages queued while the daemon is held, the daemon stopped between them, control files rewritten, HUP, released): the second message follows the new files.",
+             " Added later: HUP arriving while a scan of todo/ is open (gated run: two messages queued while the daemon is held, the daemon stopped between them, control files rewritten, HUP, released): the second message follows the new files; gated starts of the daemon with each read of a control file failing in turn (it must not start, or route by the files as written).",
         note="percent hack with an @ inside the would-be domain left open between three readings; duplicate control keys outside the domain (as the property says)",
         design="5 C10"),
     "C11": dict(
@@ -110,7 +112,8 @@ CLAIMED = {
         technique="TLA+ declarative reading of dot-qmail(5)/qmail-command(8) (Search, Walk, Judge) vs. transcription of qmail-local main() checked by TLC on exhaustive slices + TLC validation of thousands of real qmail-local runs in generated homes",
         text="DotQmail.tla derives from the documents the allowed observation for a case; DotQmailP.tla transcribes qmail-local.c and is checked against it on three exhaustive "
              "slices plus hand-computed vectors (also proving the monitor rejects falsified observations). The real qmail-local runs as an unprivileged uid in materialised "
-             "homes with probe programs and the recording QMAILQUEUE; every run is a record judged by TLC with the same Judge.",
+             "homes with probe programs and the recording QMAILQUEUE; every run is a record judged by TLC with the same Judge."
+             " Added later: runs of qmail-local with one call failing with an errno of the temporary class (descriptor table full, no memory, I/O error, ...) for an address that has its own .qmail file: deferred or harmless, never other instructions, never a bounce (spec/DotQmailFaultRec.tla).",
         note="group-writable homes/files, sticky under -n and non-+list '+' lines are left unconstrained (documents and shipped conf-patrn differ or are silent)",
         design="5 C13"),
     "C14": dict(
@@ -142,14 +145,16 @@ CLAIMED = {
         technique="TLA+ RFC 822/821 readers and documented rewriting vs. transcriptions of quote.c/token822.c/addrparse/rwgeneric/qmail-inject field logic checked by TLC (three models) + TLC validation of 45k real qmail-inject / qmail-remote -> qmail-smtpd round trips and generated header lists",
         text="Addr.tla holds the documents' side and the transcriptions; AddrQuote (every local part over 21 byte classes up to length 4/5), AddrList (addrlist stepped per token over an abstract "
              "list grammar with expected mailboxes known by construction) and AddrInject (fields x strategies x arguments) are checked by TLC. Real code at binary level: qmail-inject -a/-n/-h/-H/-f "
-             "with QMAILINJECT flags and the recording QMAILQUEUE, qmail-remote to a scripted server to the real qmail-smtpd; every record judged by TLC.",
+             "with QMAILINJECT flags and the recording QMAILQUEUE, qmail-remote to a scripted server to the real qmail-smtpd; every record judged by TLC."
+             " Added later: SPACE / TAB between a field name and its colon.",
         note="the byte rendering of generated headers is harness code (~150 lines); NUL/LF in local parts excluded by the statement; two known findings (comments inside <...>)",
         design="5 C17"),
     "C18": dict(
         technique="TLA+ monitors for the cleaner and spawner request grammars, TLC model check of the transcribed request check, TLC validation of shim-recorded unlink/open/exec/status events of the real qmail-clean and qmail-rspawn",
         text="TLC checks the transcription of qmail-clean's request check against the monitor CleanVerdict for every request of a bounded domain; the real "
              "qmail-clean (every unlink path and status byte recorded by the shim, attributed per request by sentinel requests) and the real qmail-rspawn "
-             "(every open path, every report, every started delivery agent) are driven over enumerated and random hostile streams and each record is judged by TLC. Added since: hostile bytes on qmail-send's report channels (part 3, the C18 clauses of the monitor), the local spawner relaying hostile program output, a spawner that does not finish is run again and what it did answer is judged.",
+             "(every open path, every report, every started delivery agent) are driven over enumerated and random hostile streams and each record is judged by TLC. Added since: hostile bytes on qmail-send's report channels (part 3, the C18 clauses of the monitor), the local spawner relaying hostile program output, a spawner that does not finish is run again and what it did answer is judged."
+             " Added later: request numbers that run through the last value before the 2^64 overflow, and multiples of 2^64 added to numbers of existing messages.",
         note="shim trace assumed complete for unlink/open/write; report frames are cut out of the bytes each read of the daemon returns",
         design="5 C18"),
     "C19": dict(
